@@ -3,6 +3,8 @@ use chess_bitboard::{BitBoard, Color, Pos, PromotionPiece};
 
 mod pieces;
 use pieces::*;
+#[cfg(rustyyato_chess_verif)]
+mod verif;
 
 const NO_CHECK: bool = false;
 const IN_CHECK: bool = true;
